@@ -51,7 +51,10 @@ def run(ctx):
         r.undecidable("R20-a", "anchor %s not found" % EMIT)
         return
     try:
-        paths = explore(fn, is_effect=effects.is_fs_mutating, pure=pure)
+        def has_fs(c):
+            h = p.fns.get(c.resolved or "")
+            return h is not None and h.crate == fn.crate and any(effects.is_fs_mutating(cc) for cc in h.calls())
+        paths = explore(fn, is_effect=effects.is_fs_mutating, pure=pure, program=p, inline=has_fs)
     except TooManyPaths as e:
         r.undecidable("R20-a", str(e))
         return
@@ -149,8 +152,10 @@ def run(ctx):
             nm = short(effects.strip_generics(e.name))
             o = counts.get(e.name, 0)
             counts[e.name] = o + 1
-            k = "discr(try(call:%s#%d))" % (short(e.name), e.call.ordinal)
-            v = variant_name(dec.get(k))
+            k = "discr(try(call:%s#%d" % (short(e.name), e.call.ordinal)
+            # (an effect inside an inlined helper carries the helper's name after an `@`)
+            v = next((variant_name(val) for kk, val in dec.items() if kk.startswith(k) and kk[len(k):].split("@")[0] in ("))", "")
+                      and kk.endswith("))")), None)
             last = j == len(seq) - 1
             if v is None:
                 prop_ok = False
@@ -171,13 +176,20 @@ def run(ctx):
         if len(seq) == 3:
             full_seen += 1
             retk = vkey(path.ret) if path.ret else ""
-            last_ok = variant_name(dec.get("discr(try(call:%s#%d))" % (short(seq[2].name), seq[2].call.ordinal)))
+            k3 = "discr(try(call:%s#%d" % (short(seq[2].name), seq[2].call.ordinal)
+            last_ok = next((variant_name(val) for kk, val in dec.items() if kk.startswith(k3) and kk.endswith("))")
+                            and kk[len(k3):].split("@")[0] in ("))", "")), None)
             if last_ok == "Continue" and not retk.startswith("Ok("):
                 r.violation("R20-a", "backup-emitter: success path does not return Ok", retk, [where])
         r.instance("R20-a", key, "ok" if (ident_ok and prop_ok) else "violation", where, {"ops": a})
     r.floor("R20-a", full_seen, 1, "paths performing the full write/rename/rename sequence")
     # no other fs-mutating call anywhere in the function (incl. ones on paths the explorer ended early)
-    allfs = [c for c in fn.calls() if effects.is_fs_mutating(c)]
+    family = [fn]
+    for c in fn.calls():
+        h = p.fns.get(c.resolved or "")
+        if h is not None and h.crate == fn.crate and "files_with_backup" in h.id and h not in family:
+            family.append(h)
+    allfs = [c for g in family for c in g.calls() if effects.is_fs_mutating(c)]
     r.oblige("R20-a", "exactly 3 fs-mutating call sites in the function (found %d)" % len(allfs), len(allfs) == 3)
     if len(allfs) != 3:
         r.violation("R20-a", "backup-emitter: fs call-site count",
